@@ -562,7 +562,7 @@ Lemma qsum_child g i ks idx pos path :
   qsum g (child_items_from i ks idx pos path) = sumZ (map (tree_sum g) ks).
 Proof.
   revert i; induction ks as [|k ks IH]; intros i; [reflexivity|].
-  unfold qsum in *. cbn [child_items_from map]. rewrite !sumZ_cons, <- IH. reflexivity.
+  unfold qsum in *. cbn [child_items_from map]. rewrite !sumZ_cons, <- (IH (S i)). reflexivity.
 Qed.
 
 Lemma go_sum g f q idx cur : (qsize q <= f)%nat ->
@@ -664,7 +664,7 @@ Proof.
     destruct t as [nm bl ks]. unfold assign_end, reassign. rewrite bfs_unfold.
     destruct (go_chain _ (child_items ks 1 [] []) 2 (start + bl) (le_n _)) as [H1 H2].
     cbn [snd chain d_extent d_blocks map]. split; [split; [reflexivity|exact H1]|].
-    rewrite H2, sumZ_cons. lia. }
+    rewrite H2, sumZ_cons. cbv beta. change (fun r : dirrec => d_blocks r) with d_blocks. lia. }
   destruct Hc as [Hc He]. split; [exact Hc|]. split; [exact (chain_next _ _ Hc)|].
   split; [exact He|]. split.
   { unfold ptable, assign_extents. rewrite map_map. reflexivity. }
@@ -730,4 +730,127 @@ Proof.
   rewrite (sumZ_perm _ _ (Permutation_map ptr_record_length Hp)), map_map.
   destruct t as [nm bl ks]. rewrite bfs_unfold. cbn [tl map tname] in *. rewrite sumZ_cons.
   unfold plen at 1. cbn [d_name]. rewrite Hn. reflexivity.
+Qed.
+
+(* ---- 5. an independent reader rebuilds the tree's paths ------------------------------------- *)
+
+Definition linked (out : list dirrec) : Prop :=
+  forall i r, nth_error out (S i) = Some r ->
+    exists p, nth_error out (Z.to_nat (d_parent r - 1)) = Some p /\
+              1 <= d_parent r <= Z.of_nat (S i) /\ d_path r = d_path p ++ [d_name r].
+
+Lemma reader_go_spec rest : forall done, done <> [] -> linked (done ++ rest) ->
+  reader_go (map d_path done) (map rec_tuple rest) = Some (map d_path (done ++ rest)).
+Proof.
+  induction rest as [|r rest IH]; intros done Hne Hl.
+  - rewrite app_nil_r. reflexivity.
+  - assert (Hi : nth_error (done ++ r :: rest) (S (length done - 1)) = Some r).
+    { destruct done as [|d0 done']; [congruence|]. cbn [length].
+      replace (S (S (length done') - 1)) with (length (d0 :: done')) by (cbn [length]; lia).
+      rewrite nth_error_app2 by lia. rewrite Nat.sub_diag. reflexivity. }
+    destruct (Hl _ _ Hi) as (p & Hp & Hrange & Hpath).
+    assert (Hlen : zlen (map d_path done) = Z.of_nat (length done))
+      by (unfold zlen; rewrite map_length; reflexivity).
+    assert (Hd : (0 < length done)%nat) by (destruct done; [congruence|cbn; lia]).
+    rewrite nth_error_app1 in Hp by lia.
+    pose proof (nth_error_nth _ _ [] (map_nth_error d_path _ _ Hp)) as Hnth.
+    cbn [map]. unfold rec_tuple at 1.
+    remember (map d_path done) as acc eqn:Eacc.
+    destruct acc as [|a0 acc']; [destruct done; [congruence|discriminate]|].
+    cbn [reader_go].
+    replace ((1 <=? d_parent r) && (d_parent r <=? zlen (a0 :: acc'))) with true by lia.
+    rewrite Hnth, Eacc.
+    replace (map d_path done ++ [d_path p ++ [d_name r]]) with (map d_path (done ++ [r]))
+      by (rewrite map_app; cbn [map]; rewrite Hpath; reflexivity).
+    rewrite IH.
+    + rewrite <- app_assoc. reflexivity.
+    + destruct done; discriminate.
+    + rewrite <- app_assoc. exact Hl.
+Qed.
+
+Lemma bfs_linked start t : linked (bfs start t).
+Proof.
+  intros i r H. destruct (bfs_numbers start t) as (_ & Hn & _ & Hp).
+  destruct (Hp i r H) as (p & j & Hnth & _ & Hr & _ & Hpath). pose proof (Hn _ _ H).
+  exists p. split; [exact Hnth|]. split; [lia|exact Hpath].
+Qed.
+
+Definition qpaths (q : list qitem) : list (list (list Z)) :=
+  concat (map (fun it => tree_paths (ipath it) (itree it)) q).
+
+Lemma qpaths_child i ks idx pos path :
+  qpaths (child_items_from i ks idx pos path)
+  = concat (map (fun k => tree_paths (path ++ [tname k]) k) ks).
+Proof.
+  revert i; induction ks as [|k ks IH]; intros i; [reflexivity|].
+  unfold qpaths in *. cbn [child_items_from map concat]. rewrite IH. reflexivity.
+Qed.
+
+Lemma go_paths f q idx cur : (qsize q <= f)%nat ->
+  Permutation (map d_path (fst (go f q idx cur))) (qpaths q).
+Proof.
+  revert f q idx cur.
+  apply (go_ind (fun q idx cur res => Permutation (map d_path (fst res)) (qpaths q))).
+  - intros. constructor.
+  - intros f nm bl ks pn pos path q idx cur Hf IH. cbn [fst map d_path].
+    unfold qpaths at 1. cbn [map concat]. unfold ipath at 1, itree at 1. cbn [fst snd tree_paths].
+    cbn [app]. apply perm_skip. eapply Permutation_trans; [exact IH|].
+    unfold qpaths. rewrite map_app, concat_app. fold (qpaths (child_items ks idx pos path)).
+    unfold child_items. rewrite qpaths_child. apply Permutation_app_comm.
+Qed.
+
+(* THEOREM 5 *)
+Theorem reader_sound start t :
+  reader_tree_of_ptable (ptable start t) = Some (map d_path (bfs start t)) /\
+  Permutation (map d_path (bfs start t)) (tree_paths [] t).
+Proof.
+  split.
+  - pose proof (bfs_linked start t) as Hl. unfold reader_tree_of_ptable, ptable.
+    destruct t as [nm bl ks]. rewrite bfs_unfold in *.
+    set (rest := fst (go _ _ _ _)) in *. cbn [map reader_go rec_tuple d_parent].
+    change (1 =? 1) with true. cbv iota.
+    apply (reader_go_spec rest [mk_dirrec 1 1 nm bl start [] []]); [discriminate|exact Hl].
+  - destruct t as [nm bl ks]. rewrite bfs_unfold. cbn [map d_path tree_paths]. apply perm_skip.
+    eapply Permutation_trans; [apply go_paths; lia|]. unfold child_items.
+    rewrite qpaths_child. apply Permutation_refl.
+Qed.
+
+(* ... and from the written bytes, through _parse_path_table *)
+Lemma enc_nonempty r a : enc_ptr_le r = Some a -> a <> [].
+Proof.
+  intros H E. apply ptr_record_len in H. subst a. unfold ptr_len, fmt_ptr_size in H.
+  rewrite zlen_nil in H. pose proof (zlen_nonneg (pt_dirid r)). lia.
+Qed.
+
+Lemma parse_concat rs : forall b f,
+  opt_concat (map (fun r => enc_ptr_le (ptrec_of r)) rs) = Some b -> (length rs <= f)%nat ->
+  parse_ptable f b = Some (map ptrec_of rs) /\ (length rs <= length b)%nat.
+Proof.
+  induction rs as [|r rs IH]; intros b f H Hf; cbn [map opt_concat] in H.
+  - injection H as <-. split; [destruct f; reflexivity|cbn; lia].
+  - destruct (enc_ptr_le (ptrec_of r)) as [a|] eqn:E; [|discriminate].
+    destruct (opt_concat _) as [b'|] eqn:E2; [|discriminate]. injection H as <-.
+    destruct f as [|f]; [cbn in Hf; lia|]. pose proof (enc_nonempty _ _ E) as Hne.
+    destruct a as [|x a]; [congruence|]. cbn [length] in Hf.
+    destruct (IH b' f eq_refl ltac:(lia)) as [IH1 IH2]. split.
+    + cbn [app parse_ptable]. change (x :: a ++ b') with ((x :: a) ++ b').
+      rewrite (ptr_roundtrip_le _ _ b' E), IH1. reflexivity.
+    + rewrite app_length. cbn [length]. lia.
+Qed.
+
+Theorem parse_ptable_sound start t b : ptable_bytes_le start t = Some b ->
+  exists rs, parse_ptable (length b) b = Some rs /\ map tuple_of_ptrec rs = ptable start t.
+Proof.
+  intros H. unfold ptable_bytes_le in H.
+  destruct (parse_concat _ b (length b) H) as [H1 H2].
+  - destruct (parse_concat _ b (length (bfs start t)) H (le_n _)) as [_ H2]. exact H2.
+  - exists (map ptrec_of (bfs start t)). split; [exact H1|]. unfold ptable.
+    rewrite map_map. reflexivity.
+Qed.
+
+Theorem reader_of_bytes_sound start t b : ptable_bytes_le start t = Some b ->
+  reader_of_bytes b = Some (map d_path (bfs start t)).
+Proof.
+  intros H. destruct (parse_ptable_sound _ _ _ H) as (rs & Hp & Ht).
+  unfold reader_of_bytes. rewrite Hp, Ht. apply reader_sound.
 Qed.
